@@ -202,6 +202,24 @@ def build_datagen_harness(outdir, scratchdir, cmds):
     return bins
 
 
+def build_extract_harness(outdir, scratchdir, cmds):
+    """tools/extract needs sqlite (cgo, not available): only its pure sampling package is compiled, unmodified."""
+    mod = os.path.join(scratchdir, "extractmod")
+    os.makedirs(mod)
+    with open(os.path.join(mod, "go.mod"), "w") as f:
+        f.write("module github.com/paulsonkoly/chess-3/tools/extract\n\ngo 1.25.4\n")
+    shutil.copytree(os.path.join(REPO, "tools", "extract", "sampling"), os.path.join(mod, "sampling"), ignore=shutil.ignore_patterns("*_test.go"))
+    bins = {}
+    for c in cmds:
+        shutil.copytree(os.path.join(VERIF, "extract", c), os.path.join(mod, "verifcmd", c))
+        out = os.path.join(outdir, c)
+        p = run(["go", "build", "-o", out, "./verifcmd/" + c], cwd=mod, env=goenv(), timeout=900, check=False)
+        if p.returncode != 0:
+            raise Infra("go build failed for extract cmd %s:\n%s" % (c, p.stderr[-4000:]))
+        bins[c] = out
+    return bins
+
+
 # ---------------------------------------------------------------- TLC
 
 def java_cmd(heap="1g", young="256m", extra_props=()):
